@@ -62,7 +62,7 @@ func main() {
 			sem <- struct{}{}
 			defer func() { <-sem }()
 			env := univ.Bind(registry.Probes[name]())
-			srv := drive.NewServer(env)
+			srv := drive.NewServer(env).WithPresenter()
 			omit, _ := env.Probe.Options["nullable_input_omittable"].(bool)
 			for i := 0; i < nOps; i++ {
 				opSeed := seed*3000017 + int64(i)
@@ -111,7 +111,7 @@ func templated(seed int64) *opgen.Op {
 	h := func(k string) uint64 { return univ.H("tmpl", fmt.Sprint(seed), k) }
 	t := templates[h("t")%uint64(len(templates))]
 	vars := map[string]any{}
-	decl := ""
+	decls := map[string]bool{}
 	dir := func(slot string, inline bool) string {
 		var args []string
 		switch h("lab"+slot) % 4 {
@@ -120,17 +120,28 @@ func templated(seed int64) *opgen.Op {
 		case 1:
 			args = append(args, `label: "same"`)
 		}
-		switch h("if"+slot) % 6 {
+		switch h("if"+slot) % 8 {
 		case 0:
 			args = append(args, "if: true")
 		case 1:
 			args = append(args, "if: false")
 		case 2:
-			if !strings.Contains(decl, "$dv") {
-				decl = "($dv: Boolean!)"
+			if !decls["$dv: Boolean!"] {
+				decls["$dv: Boolean!"] = true
 				vars["dv"] = h("dv")%2 == 0
 			}
 			args = append(args, "if: $dv")
+		case 3:
+			// `if` is declared Boolean = true (nullable): a nullable variable may be left out, or be null
+			if !decls["$dn: Boolean"] {
+				decls["$dn: Boolean"] = true
+				if h("dn")%2 == 0 {
+					vars["dn"] = nil
+				}
+			}
+			args = append(args, "if: $dn")
+		case 4:
+			args = append(args, "if: null")
 		}
 		d := " @defer"
 		if len(args) > 0 {
@@ -148,6 +159,15 @@ func templated(seed int64) *opgen.Op {
 		t = strings.ReplaceAll(t, slot, dir(slot, false))
 	}
 	t = strings.ReplaceAll(t, "N", fmt.Sprint(h("n")%5))
+	decl := ""
+	if len(decls) > 0 {
+		var ds []string
+		for d := range decls {
+			ds = append(ds, d)
+		}
+		sort.Strings(ds)
+		decl = "(" + strings.Join(ds, ", ") + ")"
+	}
 	q := "query T" + decl + " " + t
 	return &opgen.Op{Query: q, OpName: "T", Vars: vars, Kind: "query", Features: map[string]int{"defer": 3, "templated": 1}}
 }
@@ -200,6 +220,12 @@ func runOp(rep *ev.Reporter, env *univ.Env, srv *drive.Server, name string, opSe
 					sig, why, info := deferm.Judge(want, got)
 					if why != "" {
 						rep.Violate(sig, map[string]any{"case": cid, "why": why, "payloads": deferm.Describe(got), "plain": want.Data.Render(), "plain_errors": want.Errors})
+					}
+					// errors of deferred payloads pass the configured error presenter like all others
+					if len(got.Unpresented) > 0 {
+						rep.Violate("", map[string]any{"case": cid, "why": fmt.Sprintf("%d error(s) of the payload sequence did not pass the configured error presenter: %v", len(got.Unpresented), got.Unpresented), "payloads": deferm.Describe(got)})
+					} else if info.IncErrors > 0 {
+						rep.Count("incremental_errors_seen_presented", int64(info.IncErrors))
 					}
 					if info.Incremental > 0 {
 						rep.Distinct("deferred_cases", fmt.Sprintf("%s|%s|%d|%d", name, op.Query, pi, sm))
